@@ -271,7 +271,7 @@ class Fixture:
             try:
                 out[m] = fn(m, self.srv[m])
             except Exception as ex:          # noqa: a dead server / timeout is no verdict, never a violation
-                errs.append("%s: %r" % (m, ex))
+                errs.append("%s: %s" % (m, ex if isinstance(ex, vf.NoVerdict) else repr(ex)))
         ts = [threading.Thread(target=one, args=(m,)) for m in MODES]
         [t.start() for t in ts]
         [t.join() for t in ts]
@@ -320,7 +320,12 @@ class Fixture:
         def drive(m, s):
             res = []
             for cs in cases:
-                res.append(s.send(cs["rq"], self.tokens[m]))
+                try:
+                    res.append(s.send(cs["rq"], self.tokens[m]))
+                except Exception as ex:           # a timeout / reset is never a verdict; say where it happened
+                    raise vf.NoVerdict("no answer from the %s server for %s %s (%s %s): %r; server alive=%s; log tail: %s"
+                                       % (m, cs["fam"], cs["label"], cs["rq"]["method"], cs["rq"]["path"], ex, s.alive(),
+                                          s.log_text()[-600:]))
             return res
         out = self._each(drive)
         end = self._each(lambda m, s: self.session_of(s))
